@@ -808,14 +808,15 @@ class Ops(object):
             it.raise_('TypeError', 'ordering of values views')
         if not (va or vb):
             return NotImpl
-        if op not in ('Eq', 'NotEq'):
-            raise OutOfSubset('subset ordering of key views')
         if not (isinstance(a, setlike) and isinstance(b, setlike)):
-            return op == 'NotEq'
+            if op in ('Eq', 'NotEq'):
+                return op == 'NotEq'
+            it.raise_('TypeError', 'ordering of a view and a non-set')
         la, lb = list(a), list(b)
         if has_sym(la) or has_sym(lb):
             raise OutOfSubset('set comparison of views with symbolic elements')
-        return (set(la) == set(lb)) == (op == 'Eq')
+        sa, sb = set(la), set(lb)
+        return {'Eq': sa == sb, 'NotEq': sa != sb, 'Lt': sa < sb, 'LtE': sa <= sb, 'Gt': sa > sb, 'GtE': sa >= sb}[op]
 
     def int_term(self, it, v):
         if isinstance(v, SBool):
